@@ -17,6 +17,9 @@ RULE = (
     "lists, length-1 f4 arrays, python-float point against length-1 arrays} x function/units "
     "{sphdist default, deg/deg, rad/rad, deg/rad, rad/deg; gcirc}; every case calls f(a,b), f(b,a), "
     "f(a+360,b), f(a,b+360), f(a+360,b+360), f(a,a), f(b,b) and the same pair as length-1 f8 arrays.  "
+    "rings: the same cases for every point of a dense latitude sweep (every degree; thorough every 0.25 deg) "
+    "x 2-3 longitudes against {itself, ra+-360, exact antipode, fans at the near-coincident and near-antipodal "
+    "separations in 8 bearings} x forms {length-1 arrays, python floats} x all function/units variants.  "
     "arrays: every p-block of pairs as one long array (f8, f4, lists, one scalar point broadcast against "
     "the partner arrays in three scalar forms), every cyclic window of 3 consecutive and of 3 spread-out "
     "pairs of each block as length-3 arrays, and the whole lattice as one array; every element is "
@@ -179,6 +182,10 @@ SEPS_T = tuple(sorted(set(SEPS_Q + (
     1e-13, 1e-11, 1e-10, 1e-8, 1e-7, 1e-5, 1e-4, 1e-2, 0.1, 10.0, 30.0, 45.0, 89.999999, 120.0, 150.0,
     170.0, 174.0, 175.0, 179.9, 179.99, 180 - 1e-4, 180 - 1e-5, 180 - 1e-7, 180 - 1e-8, 180 - 1e-10,
     180 - 1e-12))))
+
+RING_SEPS_Q = (1e-12, 1e-9, 1e-6, 180 - 1e-6, 180 - 1e-9, 180.0)
+RING_SEPS_T = (1e-12, 1e-11, 1e-10, 1e-9, 1e-6, 1e-3, 180 - 1e-3, 180 - 1e-6, 180 - 1e-9, 180 - 1e-12, 180.0)
+RING_FORMS = ["len1", "pyfloat"]
 
 VARIANTS = [("sphdist", None), ("sphdist", ("deg", "deg")), ("sphdist", ("rad", "rad")),
             ("sphdist", ("deg", "rad")), ("sphdist", ("rad", "deg")), ("gcirc", None)]
@@ -444,12 +451,12 @@ def main(ctx):
             w = ~np.isfinite(arr)
             if w.any():
                 i = int(np.nonzero(w)[0][0])
-                return bad("result not finite: %r (array call %s, %s, %s)" % (arr[i], which, tag, where(i % n)))
+                return bad("result not finite: %r (array call %s, %s, %s)" % (float(arr[i]), which, tag, where(i % n)))
             w = ~((arr >= 0.0) & (arr <= vmax))
             if w.any():
                 i = int(np.nonzero(w)[0][0])
                 return bad("result outside the range: %r not in 0..%r (array call %s, %s, %s)"
-                           % (arr[i], vmax, which, tag, where(i % n)))
+                           % (float(arr[i]), vmax, which, tag, where(i % n)))
             return arr
 
         def acc(which, arr, truth):
@@ -472,7 +479,7 @@ def main(ctx):
         w = ident & (r != 0.0)
         if w.any():
             i = int(np.nonzero(w)[0][0])
-            return bad("identical inputs but result %r is not exactly zero (array call, %s, %s)" % (r[i], tag, where(i)))
+            return bad("identical inputs but result %r is not exactly zero (array call, %s, %s)" % (float(r[i]), tag, where(i)))
         rs = run("f(B,A)", B, A, n)
         if rs is None:
             return
@@ -489,7 +496,7 @@ def main(ctx):
             if np.any(z != 0.0):
                 i = int(np.nonzero(z != 0.0)[0][0])
                 return bad("identical inputs but result %r is not exactly zero (array call %s, %s, %s)"
-                           % (z[i], which, tag, where(i)))
+                           % (float(z[i]), which, tag, where(i)))
         if form != "f4":
             A3, _ = mk(adda=shift)
             _, B3 = mk(addb=shift)
@@ -507,7 +514,7 @@ def main(ctx):
                 if which == "f(A+360,B+360)" and np.any(ident & (v != 0.0)):
                     i = int(np.nonzero(ident & (v != 0.0))[0][0])
                     return bad("identical inputs but result %r is not exactly zero (array call %s, %s, %s)"
-                               % (v[i], which, tag, where(i)))
+                               % (float(v[i]), which, tag, where(i)))
         # every element equals the call on that element alone
         for i in range(n):
             ncall[0] += 1
@@ -568,6 +575,22 @@ def main(ctx):
                 bounds=dict(points=list(P), separations=list(seps), bearings=list(bearings),
                             forms=PAIR_FORMS, variants=[list(map(str, v)) for v in VARIANTS],
                             calls_per_case="f(a,b) f(b,a) f(a,a) f(b,b) 3x(+360) length-1 arrays"))
+
+    # dense latitude sweep of the two ill-conditioned families (near-coincident, near-antipodal):
+    # whether the rounded cosine / chord leaves its domain depends on the latitude
+    ring_decs = ctx.pick([float(d) for d in range(-89, 90)],
+                         [d / 4.0 for d in range(-359, 360)])
+    gen_ra = generic_points(ctx.seed, 1)[0][0]
+    ring_ras = ctx.pick((0.0, gen_ra), (0.0, 359.999999, gen_ra))
+    ring_seps = ctx.pick(RING_SEPS_Q, RING_SEPS_T)
+    ring_bearings = tuple(45.0 * k for k in range(8))
+    units_r = [(form, (ra, dec), (), ring_seps, ring_bearings)
+               for dec in ring_decs for ra in ring_ras for form in RING_FORMS]
+    ctx.lattice("rings", units_r, one_pair, expand=expand1,
+                bounds=dict(latitudes="%g..%g step %g" % (ring_decs[0], ring_decs[-1], ring_decs[1] - ring_decs[0]),
+                            longitudes=list(ring_ras), separations=list(ring_seps),
+                            bearings=list(ring_bearings), forms=RING_FORMS,
+                            partners="self, ra+-360, exact antipode (two ways), fan"))
 
     units2 = []
     for p in P:
